@@ -74,3 +74,7 @@ add("C11", "Hypothesis rule-based state machine (symbol-table histories vs list+
     "(a) Generated histories over TraceSymbolTable executed against a list+dict model with the bijection / density / stability invariant after every step. (b) Generated multi-rank file sets loaded in 3-5 child interpreters differing in PYTHONHASHSEED, use_multiprocessing, rank order and worker completion order (injected per-file delays in the forked pool); every rank must decode to its own file's strings and the canonical digests (decoded rows + ten analysis outputs) of all children must be equal.",
     "Hash seeds, orders and schedules are sampled; completion order is steered by sleeps of 0.25 s granularity in forked workers; add_symbols_mp's numbering order among new symbols is not prescribed.",
     "DESIGN.md §5 C11")
+add("C01", "property-based testing (Hypothesis) over raw Chrome-trace files against a pure-Python parser model; metamorphic rounding relations",
+    "Generated-input search over raw multi-rank file sets (arbitrary mix and order of complete, metadata, flow, instant, counter, 'Trace' and incomplete entries; integer or fractional stamps; both formats; epoch up to 1.7e15) through parse_traces(), load_traces() and TraceAnalysis() with multiprocessing on and off: row ids equal the positions of the model's complete events in both directions, every field decodes to the file's value, fractional stamps follow ceil/floor on the same doubles, rounding is inward and preserves containment/disjointness, every loaded ts equals the rounded file ts minus one constant with overall minimum 0, end == ts + dur.",
+    "Trusts hv/model/raw.py; JSON backend only (ijson not installed); fewer than two profiler steps so nothing is trimmed.",
+    "DESIGN.md §5 C01")
